@@ -370,6 +370,12 @@ class Probe:
                     if abs(e[1e-5] - e[1e-6]) > 0.25 * max(e.values()):
                         self.log.count("kink-discarded")
                         continue
+                    # switching point exactly at the state (see C01): either branch is a valid tangent
+                    jump = max(0.0, (10.0 * kap[1e-6] - kap[1e-5]) / 9.0)
+                    if jump > 1e-8 * scale_all and err <= 2.0 * jump:
+                        self.log.count("kink-discarded")
+                        self.log.count("kink-discarded:switch-at-state")
+                        continue
                     self.V(
                         "fd-hessian",
                         f"{self.model}: elasticity block ({i},{j}) : d differs from the central difference of the stress by {err:.3e} (scale {sc:.3e}; committed statevars {'non-zero' if sv.size and np.any(sv != 0) else 'virgin'})",
